@@ -81,6 +81,16 @@ def family(tier, keys):
             m = {keys[i]: v for i, v in zip(sub, pat)}
             if m not in out:
                 out.append(m)
+    # contents with keys outside the operation pool: branches with three children (no collapse when one goes),
+    # identical hashed leaves below different parents
+    if n >= 4 and len(keys[2]) == 2 and len(keys[3]) == 2:
+        k3 = keys[2][:-1] + bytes([keys[2][-1] ^ 0x02])            # a third sibling of keys[2] / keys[3]
+        far = bytes([keys[2][0] ^ 0x30]) + keys[2][1:]              # same suffix as keys[2] below another top-level slot
+        other = bytes([keys[2][0] ^ 0x70, 0])
+        for m in ({keys[2]: LONG_A, keys[3]: LONG_A, k3: b"\x01"}, {keys[2]: b"\x01", keys[3]: LONG_A, k3: LONG_A},
+                  {keys[2]: LONG_A, far: LONG_A, other: b"\x01"}, {keys[2]: LONG_A, keys[3]: LONG_B, k3: LONG_A, far: LONG_A}):
+            if m not in out:
+                out.append(m)
     return out
 
 
